@@ -65,7 +65,7 @@ class C05(Check):
     assumptions = ["Calibrator, checkpointing, samplers: real code on a real scratch folder; crash = the live object and every reference are "
                    "dropped, ambient RNG state perturbed, only the folder survives; a sample of restores in a truly fresh interpreter is "
                    "not taken (in-process restore only)", "RL line-ups are outside this property's quantifier (every cut opens a new session)"]
-    quick = {"runs": 40, "wall": 40, "item_timeout": 200}
+    quick = {"runs": 40, "wall": 150, "item_timeout": 600}
     thorough = {"runs": 3000, "wall": 900, "item_timeout": 1200}
 
     def gen(self, rng, tier, i):
